@@ -12,7 +12,12 @@ TRUST = ("Trusted base: TLC 1.8 and the TLA+ specs' reading of the code; the bac
 
 DUR = '''TLA+ spec Durable.tla (replay engine across invocations: every handler's check_result_status/execute case split, sync/async checkpoints, FIFO+Flush(k) pipeline abstraction, crash at every point, suspension, timers, external completions, API failures, backend lifecycle Legal/Apply) model-checked exhaustively with TLC on a curated program family; real SDK (real wrapper, handlers, batcher thread) run over many invocations against a stateful ModelBackend under a deterministic scheduler; every execution checked by direct oracles and validated as a behaviour of the spec by TLC trace validation (DurableTrace.tla)'''
 
+EXE = '''TLA+ spec Executor.tla (map/parallel branch machine: submission, worker pool bound, done-callback split into status write / policy decision / one-status-per-step suspend scan, timer resubmission, cancellation, result construction, orphan marking; completion policy and reason classifier transcribed) model-checked exhaustively with TLC over a sweep of branch scripts x max_concurrency x completion configs; real SDK programs with map/parallel (nested, early completion, failures, waits/retries/callbacks inside branches) executed over many invocations against ModelBackend under a deterministic scheduler with function durations, API latency and crashes; direct oracles on the delivered BatchResult, the backend's update stream and the observed concurrency'''
+
 CHECKS = {
+    "C08": dict(technique="operation ids recomputed independently (blake2b of '<parent>-<n>' along the structural path encoded in operation names) and checked on every update of every invocation under schedules permuting branch start/completion order, in-process resubmission and re-invocation; structural ids are paths in Durable.tla/Executor.tla; gap-free per-context counters by OrderedLock.tla (C19)", text="Conformance campaign over nested sequential and map/parallel programs (ids, parent links, uniqueness, stability across invocations) with the TLA+ models using structural paths as identities; blake2b collision-freeness assumed.", design_ref="DESIGN.md 5 (C08)"),
+    "C09": dict(technique=EXE, text="Exhaustive TLC sweep of the executor (ConcurrencyBound, ReturnsOnlyWhenDecided, ItemsFaithful, ReasonConsistent) + real executions: one item per input in order, reported items carry the branch's own result/error (ground truth recorded in the branch body), policy decided at return, reason consistent, concurrency limit, replayed BatchResult equal.", design_ref="DESIGN.md 3.5, 5 (C09)"),
+    "C10": dict(technique=EXE, text="Exhaustive TLC sweep (NoDescendantAfterParentDone for known and never-seen operations, un-started branches, nested executors) + real early-completion executions with surviving branches at every kind of position; oracle on the backend stream: no update under a context after its completion record.", design_ref="DESIGN.md 3.5, 5 (C10)"),
     "C01": dict(technique=DUR, text="Exhaustive TLC model checking of the engine on curated programs (all crash points / flush splits / timer and completion orders / failure positions within budgets) + conformance of the real SDK: no function entry while the backend holds a terminal record; later calls yield the recorded outcome; crash sweep at every scheduling step, random pagination incl. empty first page.", design_ref="DESIGN.md 3.4, 5 (C01)"),
     "C02": dict(technique=DUR, text="Exhaustive TLC model checking of the engine on curated programs (all crash points / flush splits / timer and completion orders / failure positions within budgets) + conformance of the real SDK: all deliveries at one call position equal across invocations (typed repr / class|message); final outcome independent of the interruption pattern.", design_ref="DESIGN.md 3.4, 5 (C02)"),
     "C03": dict(technique=DUR, text="Exhaustive TLC model checking of the engine on curated programs (all crash points / flush splits / timer and completion orders / failure positions within budgets) + conformance of the real SDK: every delivery / PENDING / SUCCEEDED happens after the backend accepted the record, under schedules that starve the consumer and API faults.", design_ref="DESIGN.md 3.4, 5 (C03)"),
